@@ -1,5 +1,26 @@
+import json
+
 import ratchet
 
 
 def run(ctx, replay=None):
+    rp = json.load(open(replay)) if replay else None
+    if rp and str(rp.get("family", "")).startswith("pipeline-"):
+        import pipeline_check
+        pipeline_check.run(ctx, replay, part="retry")
+        return ctx.finish(level="model_checking", rule="replay: store-layer retry of a failed message", exhaustive=False,
+                          technique="replay of one controlled schedule on the real message pipeline; TLC trace validation against MonPipeline")
+    if not replay:
+        # store layer of C02 (store_message.go is anchored): a message that fails - beyond the window, or sealed
+        # before the announced counter - must be retried after others have been opened; window / late-joiner
+        # scenarios of the message pipeline under controlled schedules (MonPipeline.tla)
+        finish = ctx.finish
+
+        def finish_with_retry_part(**kw):
+            ctx.finish = finish
+            import pipeline_check
+            pipeline_check.run_retry_part(ctx)
+            kw["technique"] = kw.get("technique", "") + "; store layer: window / late-joiner scenarios of the real message pipeline under controlled schedules judged by MonPipeline"
+            return finish(**kw)
+        ctx.finish = finish_with_retry_part
     return ratchet.run_c02(ctx, replay)
